@@ -7,7 +7,7 @@
    returns, and that a valid document never makes a step fail to build, is decided on every
    generated case by the correspondence run (watchdog, goroutine census, oracle c08_holds). *)
 From Coq Require Import String List Arith Bool.
-From GW Require Import Base.Res Gql.Syntax Gw.Locate Gw.Plan Gw.PlanLTS Proofs.PlanLTSProofs Proofs.PlanTotal.
+From GW Require Import Base.Res Gql.Syntax Gw.Locate Gw.Plan Gw.PlanLTS Proofs.PlanLTSProofs Proofs.PlanTotal Gw.Plan2 Proofs.Plan2Total.
 Import ListNotations.
 
 (* For every step tree -- any number of cross-service branch points inside one step, any depth --
@@ -52,6 +52,49 @@ Theorem C08_extraction_descends_one_level_per_call : forall prios urls ft fuel p
   ldepth sels < fuel -> fuel_err (extract prios urls ft fuel ptype ploc ip w sels) = false.
 Proof. exact extract_total. Qed.
 Print Assumptions C08_extraction_descends_one_level_per_call.
+
+(* Named fragment spreads.  In the full model (Gw/Plan2.v, the one compared with the implementation)
+   extractSelection also recurses into the body of a spread fragment -- the step's own definition of
+   that name when it has one, else the document's -- and that recursion leaves the document's
+   nesting.  What bounds it is what validation guarantees and the Go code relies on without saying
+   so: fragments do not spread each other in a cycle.  Stated as a rank R on fragment names (every
+   spread inside a fragment's body names a fragment of smaller rank; D bounds the depth of the
+   bodies): with more than  depth + r * (D + 1)  fuel, r above the ranks the selection spreads,
+   extractSelection never stops for lack of fuel; what it keeps is no deeper than what it was given
+   and spreads nothing new; and the definitions it leaves for the step are again parts of the
+   document's (fine_env), so the next extraction of that step starts from the same premises. *)
+Theorem C08_extraction_terminates_on_acyclic_fragments :
+  forall prios urls ft planfrags (R : string -> nat) (D : nat), fine_env R D planfrags ->
+  forall fuel sfrags ptype ploc ip w sels r,
+    fine_env R D sfrags -> (forall m, In m (lspreads sels) -> R m < r) -> ldepth sels + r * (D + 1) < fuel ->
+    fuel_err (extract2 prios urls ft planfrags fuel sfrags ptype ploc ip w sels) = false /\
+    forall ks ps sf, extract2 prios urls ft planfrags fuel sfrags ptype ploc ip w sels = Ok (ks, ps, sf) ->
+      fine_env R D sf /\ ldepth ks <= ldepth sels /\ (forall m, In m (lspreads ks) -> In m (lspreads sels)).
+Proof. exact extract2_total. Qed.
+Print Assumptions C08_extraction_terminates_on_acyclic_fragments.
+
+(* non-vacuity: F spreads G, both cross services; ranks G = 0, F = 1; bodies at most 2 deep *)
+Example C08_fragments_example :
+  let urls : urlmap := [("Query.user", ["A"]); ("User.id", ["A"; "B"]); ("User.name", ["A"]); ("User.photo", ["B"]); ("User.friend", ["A"])] in
+  let ft : ftypes := [("Query.user", "User"); ("User.friend", "User")] in
+  let f n sub := Field n n [] [] sub in
+  let frags := [{| f_name := "F"; f_tcond := "User"; f_dirs := []; f_sel := [f "name" []; f "friend" [Spread "G" []]] |};
+                {| f_name := "G"; f_tcond := "User"; f_dirs := []; f_sel := [f "name" []; f "photo" []] |}] in
+  let R := fun n => if String.eqb n "F" then 1 else 0 in
+  fine_env R 2 frags /\
+  (forall m, In m (lspreads [f "user" [Spread "F" []]]) -> R m < 2) /\
+  match extract2 [] urls ft frags (ldepth [f "user" [Spread "F" []]] + 2 * (2 + 1) + 1) [] "Query" "A" [] [] [f "user" [Spread "F" []]] with
+  | Ok (_, ps, sf) => List.length ps = 1 /\ List.length sf = 2
+  | _ => False
+  end.
+Proof.
+  split; [|split].
+  - intros d [<-|[<-|[]]]; (split; [vm_compute; auto|]); intros m Hm; vm_compute in Hm.
+    + destruct Hm as [<-|[]]. vm_compute. auto.
+    + destruct Hm.
+  - intros m Hm. vm_compute in Hm. destruct Hm as [<-|[]]. vm_compute. auto.
+  - vm_compute. split; reflexivity.
+Qed.
 
 (* non-vacuity: a document five levels deep across three services, planned with exactly depth + 2 *)
 Example C08_planner_example :
